@@ -172,10 +172,9 @@ def check_group(res, B, elems, xs, case, sub, ops_wanted, tol=1e-11):
                 except NotImplementedError:
                     pass
             # N5: a value differing in the 9th significant digit (fresh objects)
-            if len(kinds) == 1 and maxabs(args[0]) > 0:
+            if len(kinds) == 1 and maxabs(args[0]) > 0 and np.all(np.isfinite(args[0])):
+                # (group parameters leave the manifold by ~1e-9; both paths evaluate the same formulas on the same raw input)
                 p5 = np.asarray(args[0], dtype=float) * (1.0 + 3e-9)
-                if kinds[0] == "g":
-                    continue  # scaling raw group parameters leaves the manifold; done for algebra elements only
                 with contextlib.redirect_stdout(io.StringIO()):
                     r5 = ev(fn(mk(kinds[0], p5)))
                 want5 = B.call(op, p5)
